@@ -296,7 +296,7 @@ pub fn spec() -> PropertySpec {
     PropertySpec {
         id: "C07",
         level: "fault_enumeration",
-        rule: "copy_chunked_async driven by a scripted source and a scripted sink. (1) sweep: every piece length 1..=65528 once, decoded by the strict decoder, which checks every size line against the data that follows (exhaustive for the size-line encoding). (2) random streams 0..1 MiB under tape-chosen/adversarial piece sequences (all-1, max-then-1, powers of 16 +-1), short writes and spurious Pending; strict independent decoder must recover the source, no zero chunk inside, exactly one terminator. (3) source error after piece k, k enumerated over 0..=#pieces, repeating or one-shot (the source then reports end of data or goes on): complete chunks, no terminator. (4) sink error at every chunk boundary +-1 and at drawn offsets: accepted bytes are a prefix of the fault-free output, no write after the error. distinct = hash(len, piece sequence / fault offset); non-trivial = at least 2 pieces or a fault strictly inside the output.",
+        rule: "copy_chunked_async driven by a scripted source and a scripted sink. (1) sweep: every piece length 1..=65528 once, decoded by the strict decoder, which checks every size line against the data that follows (exhaustive for the size-line encoding). (2) random streams 0..1 MiB under tape-chosen/adversarial piece sequences (all-1, max-then-1, powers of 16 +-1), short writes and spurious Pending; strict independent decoder must recover the source, no zero chunk inside, exactly one terminator. (3) source error after piece k, k enumerated over 0..=#pieces, repeating or one-shot (the source then reports end of data or goes on): complete chunks, no terminator. (4) sink error at every chunk boundary +-1 and at drawn offsets: accepted bytes are a prefix of the fault-free output, no write after the error. distinct = hash(len, piece sequence / fault offset); non-trivial = at least 2 pieces or a fault strictly inside the output. Error kinds are drawn from 15 kinds; one sink fault in eight and a share of the one-shot source errors are TRANSIENT Interrupted errors, for which giving up and a correct retry are both accepted (success then requires exactly the complete encoding).",
         scenarios: vec![
             Scenario { name: "c07.sweep", property: "C07", func: sweep, runs_quick: 65_528, runs_thorough: 65_528, doc: "every piece length" },
             Scenario { name: "c07.random", property: "C07", func: random_streams, runs_quick: 200_000, runs_thorough: 5_000_000, doc: "random streams and schedules" },
